@@ -96,6 +96,13 @@ def required_args(name, rng):
         if r < 0.4:
             from sktime.forecasting.compose import EnsembleForecaster
             ms.append(("c", EnsembleForecaster([("x", _naive(strategy="mean")), ("y", _trend())])))
+        if name == "OnlineEnsembleForecaster" and rng.random() < 0.6:
+            # with a weighting algorithm (an object that learns during update)
+            from sklearn.metrics import mean_squared_error
+            from sktime.forecasting.online_learning import NNLSEnsemble, NormalHedgeEnsemble
+            algo = rng.choice([NNLSEnsemble, NormalHedgeEnsemble])
+            return {"forecasters": ms, "ensemble_algorithm": algo(n_estimators=len(ms),
+                                                                  loss_func=mean_squared_error)}
         return {"forecasters": ms}
     if name == "MultiplexForecaster":
         return {"forecasters": [("a", _naive()), ("b", _trend())], "selected_forecaster": rng.choice(["a", "b"])}
@@ -234,7 +241,7 @@ def generate(prop, rng, tier):
 
 
 # ------------------------------------------------------------------ helpers
-def param_digest(v):
+def param_digest(v, _depth=0):
     """Deep, comparable description of a parameter value (incl. fitted state of
     estimator-valued parameters)."""
     from sklearn.base import BaseEstimator as SkBase
@@ -252,6 +259,11 @@ def param_digest(v):
         return ("arr", v.shape, hashlib.sha256(v.tobytes()).hexdigest()[:12])
     if callable(v):
         return ("fn", getattr(v, "__name__", repr(v)))
+    if hasattr(v, "__dict__") and not isinstance(v, type) and _depth < 4:
+        # any other object handed to a constructor (a weighting algorithm, a splitter, ...): by
+        # what it holds, so that a change inside it is a change of the parameter
+        return ("obj", type(v).__name__, [(k, param_digest(x, _depth + 1))
+                                          for k, x in sorted(vars(v).items())])
     try:
         if isinstance(v, float) and np.isnan(v):
             return ("nan",)
